@@ -1,49 +1,450 @@
-import MuscleModel.Wire.Decode
+import MuscleModel.Wire.CostProofs3
+import MuscleModel.Wire.CostProofs5
+import MuscleModel.Wire.CostProofs6
+import MuscleModel.Wire.CostProofs7
 
 /-!
 # C02 — Parsing untrusted bytes is memory-safe, terminates, and costs O(input)
 
-Placeholder written with the `parse` harness so that the pipeline runs; the property theorems (no_fault, rd_invariant,
-alloc_linear, steps_linear, depth_bounded, …) are stated by the session owner.  The one theorem below is a true
-statement about the parser model `decode` (= `Message::UnflattenFromBytes`): a buffer shorter than the 12-byte header
-is rejected, whatever the nesting limit.
+Property theorems only (lemmas: `Wire/CostProofs1..7.lean`; the instrumented parser: `Wire/DecodeCost.lean`).
+
+What Lean carries here is the LOGIC of the parser on every byte string, accepted or not: the read position never
+leaves the buffer and never moves backwards, the recursion is bounded by the input length and by the nesting limit, and
+no reservation or copy is made for a count or length the bytes merely DECLARE — every reservation is covered by bytes
+actually present.  Memory safety of the compiled code itself is validated by the sanitizer harness, not proved.
+
+Objects.  `decode`/`decMsg`/… (`Wire/Decode.lean`) is the parser model whose status and parsed content the `parse`
+engine compares with `Message::Unflatten` on hostile inputs.  `decodeT`/`decMsgT`/… (`Wire/DecodeCost.lean`) is its twin
+that also returns a `Tally` (`table`, `reserve`, `copied`, `steps`, `depth`, `window`) on every path, failures included.
+
+The tally's tie to the binary is
+(a) the regenerated guards: `Generated/ParseGuards.lean` is re-derived from the source text of `message/Message.cpp` on
+    every run (`tools/extract_parse_guards.py`); the twin makes each size check only `if <guard> && …` and otherwise
+    charges the declared amount, and every proof below unfolds the constants — delete a guard in the source and
+    `guards_present`, `erase_tally`, `cost_linear`, `depth_bounded` stop compiling (mutants/C02/guard-*.diff);
+(b) the harness's measured-allocation oracle (bytes requested from the allocator during a parse ≤ 96·N + 256 KiB,
+    `harness/parse.cpp`), evaluated on the hostile stream.
+
+The nesting limit `mx` (= `Gen.maxMessageNestingDepth`, regenerated from the source) is a parameter: every theorem
+holds for every value of it.  So is the presize cap of the field table (`cap : Option Nat`, `none` = presize for the bare
+declared count): everything except the `table` bound holds for every `cap`; the `table` bound is proved for the
+regenerated `Gen.entryPresizeCap` (`some 32` since fix fdd2b0b) and, generally, for every `some c` with `c ≤ 36`.
+History: before fdd2b0b the table was presized for the declared count at EVERY nesting level (views overlap), so the
+reservation was linear in N only with the nesting limit in the constant (`mx/12` slots per byte; 107 KB of input
+requested 137 MB).  `uncapped_table_exceeds_view_twelfth` keeps that fact about the uncapped model.
 -/
 
+set_option linter.unusedSimpArgs false
+set_option linter.unusedVariables false
+
 namespace Muscle.Props.C02
-open Muscle Muscle.Wire
+open Muscle Muscle.Wire Muscle.Gen
 
 /-- Fewer than 12 bytes can never parse: the three header words are read before anything else. -/
 theorem decode_short_is_error (mx : Nat) (b : Bytes) (h : b.length < 12) : decode mx b = none := by
-  have r4 : ∀ (x r : Bytes) (n : Nat), rd32 x = some (n, r) → x.length = r.length + 4 := fun x r n hx => rd32_length hx
   unfold decode
-  have : decMsg mx (b.length + 2) 1 b = none := by
-    rw [show b.length + 2 = (b.length + 1) + 1 from rfl]
-    unfold decMsg
-    split
-    · rfl
-    · cases h1 : rd32 b with
-      | none => rfl
-      | some p1 =>
-        obtain ⟨v, b1⟩ := p1
-        have l1 := r4 _ _ _ h1
-        simp only
-        split
-        · rfl
-        · cases h2 : rd32 b1 with
-          | none => rfl
-          | some p2 =>
-            obtain ⟨w, b2⟩ := p2
-            have l2 := r4 _ _ _ h2
-            simp only
-            cases h3 : rd32 b2 with
-            | none => rfl
-            | some p3 =>
-              obtain ⟨n, b3⟩ := p3
-              have l3 := r4 _ _ _ h3
-              omega
-  simp [this]
+  cases hd : decMsg mx (b.length + 2) 1 b with
+  | none => rfl
+  | some v =>
+    obtain ⟨m, r⟩ := v
+    have := (c2_posAt mx _).msg _ _ _ _ hd
+    omega
 
 /-- Non-vacuity: an 11-byte prefix of a valid header is such a buffer. -/
 example : decode 256 [0x30, 0x30, 0x4D, 0x50, 0, 0, 0, 0, 0, 0, 0] = none := decode_short_is_error _ _ (by decide)
+
+/-! ## the guards the cost theorems rest on -/
+
+/-- Every size check the theorems below depend on is present in the source, in front of what it protects
+    (the constants are regenerated from `message/Message.cpp` on every run). -/
+theorem guards_present :
+    entryCountGuard = true ∧ strCountGuard = true ∧ rawLenGuard = true ∧ subMsgLenGuard = true ∧ nestGuard = true ∧
+    (∃ c, entryPresizeCap = some c ∧ c ≤ 36) := by
+  refine ⟨by decide, by decide, by decide, by decide, by decide, ?_⟩
+  have h : (match entryPresizeCap with | some c => decide (c ≤ 36) | none => false) = true := by decide
+  cases hc : entryPresizeCap with
+  | none => simp only [hc] at h; cases h
+  | some c => simp only [hc, decide_eq_true_eq] at h; exact ⟨c, rfl, h⟩
+
+/-- Whatever entry count a header declares, the field table is presized for at most 36 entries (the regenerated cap of
+    `_entries.EnsureSize(muscleMin(numEntries, cap), true)`, or the default capacity 7 when that minimum is 0). -/
+theorem presize_bounded (n : Nat) : presize entryPresizeCap n ≤ 36 := by
+  have h : (match entryPresizeCap with | some c => decide (c ≤ 36) | none => false) = true := by decide
+  cases hc : entryPresizeCap with
+  | none => simp only [hc] at h; cases h
+  | some c =>
+    simp only [hc, decide_eq_true_eq] at h
+    exact c2_presize_some c h n
+
+/-! ## the instrumented twin IS the parser -/
+
+/-- Erasing the tally of the instrumented `Message::Unflatten` gives the parser model, for every fuel, level and input. -/
+theorem erase_tally (cap : Option Nat) (mx fuel lvl : Nat) (b : Bytes) : (decMsgT cap mx fuel lvl b).1 = decMsg mx fuel lvl b :=
+  (c2_eraseAt cap mx fuel).msg lvl b
+
+/-- …and so for the other members of the mutual block and for the item readers. -/
+theorem erase_tally_block (cap : Option Nat) (mx fuel lvl : Nat) :
+    (∀ k b acc c, (decFieldsT cap mx fuel lvl k b acc c).1 = decFields mx fuel lvl k b acc) ∧
+    (∀ tc p, (decPayloadT cap mx fuel lvl tc p).1 = decPayload mx fuel lvl tc p) ∧
+    (∀ b, (decMsgItemsT cap mx fuel lvl b).1 = decMsgItems mx fuel lvl b) ∧
+    (∀ k b, (decStrItemsT k b).1 = decStrItems k b) ∧
+    (∀ k b, (decRawItemsT k b).1 = decRawItems k b) ∧
+    (∀ tc sz p, (decFixedT tc sz p).1 = decFixed tc sz p) :=
+  ⟨(c2_eraseAt cap mx fuel).fields lvl, (c2_eraseAt cap mx fuel).payload lvl, (c2_eraseAt cap mx fuel).items lvl,
+   c2_erase_str, c2_erase_raw, c2_erase_fixed⟩
+
+/-- `Message::UnflattenFromBytes`: the instrumented entry point returns exactly what `decode` returns. -/
+theorem erase_tally_decode (cap : Option Nat) (mx : Nat) (b : Bytes) : (decodeT cap mx b).1 = decode mx b :=
+  c2_erase_decode cap mx b
+
+/-! ## the read position stays inside the buffer and never moves backwards -/
+
+/-- Every reader that succeeds returns an unread rest that is a suffix-sized part of what it was given: at least the
+    bytes it must have consumed are gone (4 per word, 4 per string/raw item, 12 per entry, 12 per Message), and never
+    more bytes come back than went in.  The last clause is the read-limiter rule of the entry loop: the unread rest of
+    a limited view is given back in front of the bytes behind the view, and together they are no more than before. -/
+theorem position_monotone (mx fuel lvl : Nat) :
+    (∀ b n r, rd32 b = some (n, r) → r.length + 4 = b.length) ∧
+    (∀ n b x r, takeN n b = some (x, r) → r.length + n = b.length ∧ x.length = n) ∧
+    (∀ k b xs r, decStrItems k b = some (xs, r) → r.length + 4 * k ≤ b.length) ∧
+    (∀ k b xs r, decRawItems k b = some (xs, r) → r.length + 4 * k ≤ b.length) ∧
+    (∀ tc sz p f r, decFixed tc sz p = some (f, r) → r.length ≤ p.length) ∧
+    (∀ tc p f r, decPayload mx fuel lvl tc p = some (f, r) → r.length ≤ p.length) ∧
+    (∀ k b acc fs r, decFields mx fuel lvl k b acc = some (fs, r) → r.length + 12 * k ≤ b.length) ∧
+    (∀ b m r, decMsg mx fuel lvl b = some (m, r) → r.length + 12 ≤ b.length) ∧
+    (∀ tc el (b : Bytes) f rest, decPayload mx fuel lvl tc (b.take el) = some (f, rest) →
+        (rest ++ b.drop el).length ≤ b.length) := by
+  refine ⟨?_, ?_, ?_, ?_, ?_, ?_, ?_, ?_, ?_⟩
+  · intro b n r h; have := rd32_length h; omega
+  · intro n b x r h; have := c2_takeN_len h; omega
+  · exact c2_decStrItems_pos
+  · exact c2_decRawItems_pos
+  · exact c2_decFixed_pos
+  · exact (c2_posAt mx fuel).payload lvl
+  · intro k b acc fs r; exact (c2_posAt mx fuel).fields lvl k b acc fs r
+  · exact (c2_posAt mx fuel).msg lvl
+  · intro tc el b f rest h
+    have := (c2_posAt mx fuel).payload lvl _ _ _ _ h
+    simp only [List.length_append, List.length_take, List.length_drop] at this ⊢
+    omega
+
+/-- Non-vacuity: a header-only Message followed by one more byte parses and leaves that byte (13 = 1 + 12). -/
+example : ∃ m, decMsg 256 2 1 [0x30, 0x30, 0x4D, 0x50, 0, 0, 0, 0, 0, 0, 0, 0, 7] = some (m, [7]) :=
+  ⟨.mk 0 [], by
+  simp [decodeT, decMsgT, decMsg, decFieldsT, decFields, decPayloadT, rd32, rdN, takeN, leVal, le32, leN, cstr, lookupField, wireItemSize,
+    nestGuard, entryCountGuard, oldestProtocolVersion, protocolVersion, Tally.add_def,
+    tcMessage, tcBool, tcDouble, tcFloat, tcInt64, tcInt32, tcInt16, tcInt8, tcPoint, tcRect, tcPointer, tcTag]⟩
+
+/-! ## termination: the fuel never decides the outcome -/
+
+/-- Any two fuels above the input length give the same result: the chain of recursive calls is bounded by the number of
+    input bytes, so "out of fuel" is never the reason for an error. -/
+theorem fuel_irrelevant (mx f1 f2 lvl : Nat) (b : Bytes) (h1 : b.length < f1) (h2 : b.length < f2) :
+    decMsg mx f1 lvl b = decMsg mx f2 lvl b :=
+  (c2_fuelAt mx f1).msg f2 lvl b h1 h2
+
+/-- …the same for the entry loop, the payload reader and the sub-Message item loop, each with the length of its own
+    input as the sufficient bound. -/
+theorem fuel_irrelevant_block (mx f1 f2 lvl : Nat) :
+    (∀ k b acc, b.length < f1 → b.length < f2 → decFields mx f1 lvl k b acc = decFields mx f2 lvl k b acc) ∧
+    (∀ tc p, p.length < f1 → p.length < f2 → decPayload mx f1 lvl tc p = decPayload mx f2 lvl tc p) ∧
+    (∀ b, b.length < f1 → b.length < f2 → decMsgItems mx f1 lvl b = decMsgItems mx f2 lvl b) :=
+  ⟨fun k b acc => (c2_fuelAt mx f1).fields f2 lvl k b acc, fun tc p => (c2_fuelAt mx f1).payload f2 lvl tc p,
+   fun b => (c2_fuelAt mx f1).items f2 lvl b⟩
+
+/-- `decode` supplies `length + 2`; any other fuel above the length yields the same answer. -/
+theorem decode_fuel_irrelevant (mx f : Nat) (b : Bytes) (h : b.length < f) :
+    decode mx b = (match decMsg mx f 1 b with | some (m, _) => some m | none => none) := by
+  unfold decode
+  rw [fuel_irrelevant mx (b.length + 2) f 1 b (by omega) h]
+  rfl
+
+/-- Non-vacuity: the hypotheses are satisfiable for every input (`f1 = length + 1`, `f2 = length + 2`). -/
+example (b : Bytes) : b.length < b.length + 1 ∧ b.length < b.length + 2 := by omega
+
+/-! ## nesting -/
+
+/-- `Message::Unflatten` entered with nest count `lvl` never reaches a nest count above `max lvl (mx + 1)`, whatever the
+    bytes say: with `lvl = 1`, at most `mx + 1` nested frames (the last of which only fails). -/
+theorem depth_bounded (cap : Option Nat) (mx fuel lvl : Nat) (b : Bytes) : (decMsgT cap mx fuel lvl b).2.depth ≤ max lvl (mx + 1) := by
+  have h := (c2_linAt cap mx (max lvl (mx + 1)) (by omega) fuel).msg lvl b (by omega)
+  generalize decMsgT cap mx fuel lvl b = r at h ⊢
+  obtain ⟨r1, r2⟩ := r
+  cases r1 with
+  | none => simp only [LinR, LinF] at h ⊢; omega
+  | some x => simp only [LinR, LinS] at h ⊢; omega
+
+theorem depth_bounded_decode (cap : Option Nat) (mx : Nat) (b : Bytes) : (decodeT cap mx b).2.depth ≤ mx + 1 := by
+  have := depth_bounded cap mx (b.length + 2) 1 b
+  simp only [decodeT]; omega
+
+/-- A parse that entered nesting level `mx + 1` has failed: an accepted Message never made the parser go deeper than
+    the limit.  (For every byte string — in particular for the encoding of any Message nested deeper than `mx`.) -/
+theorem too_deep_is_error (cap : Option Nat) (mx : Nat) (b : Bytes) (h : mx < (decodeT cap mx b).2.depth) : decode mx b = none := by
+  rw [← erase_tally_decode cap]
+  have hl := (c2_linAt cap mx (mx + 1) (by omega) (b.length + 2)).msg 1 b (by omega)
+  simp only [decodeT] at h ⊢
+  generalize decMsgT cap mx (b.length + 2) 1 b = r at hl h ⊢
+  obtain ⟨r1, r2⟩ := r
+  cases r1 with
+  | none => rfl
+  | some x => simp only [LinR, LinS] at hl h; omega
+
+/-- Non-vacuity: with the limit at 1, a Message holding one sub-Message makes the parser enter level 2 — and fail. -/
+example : 1 < (decodeT none 1 ([0x30, 0x30, 0x4D, 0x50, 0, 0, 0, 0, 1, 0, 0, 0] ++ le32 2 ++ [0x61, 0] ++ le32 tcMessage ++
+    le32 16 ++ le32 12 ++ [0x30, 0x30, 0x4D, 0x50, 0, 0, 0, 0, 0, 0, 0, 0])).2.depth := by
+  simp [decodeT, decMsgT, decMsg, decFieldsT, decFields, decPayloadT, rd32, rdN, takeN, leVal, le32, leN, cstr, lookupField, wireItemSize,
+    nestGuard, entryCountGuard, oldestProtocolVersion, protocolVersion, Tally.add_def,
+    tcMessage, tcBool, tcDouble, tcFloat, tcInt64, tcInt32, tcInt16, tcInt8, tcPoint, tcRect, tcPointer, tcTag]
+
+/-- The encoder side of the same fact: ANY Message `m` wrapped in `k` Messages (`nestMsg k m`: each wrapper holds the
+    next as the single item of its Message field "a") is refused as soon as `k` reaches the nesting limit — its innermost
+    frame would be entered with nest count `k + 1 > mx` — whatever follows the encoding.  (Sizes below 2^32, as for every
+    flattenable Message; for `k < mx` and a well-formed `m` nested no deeper than `mx − k`, C01's `decode_encode` accepts it.) -/
+theorem too_deep_is_error_nest (mx k : Nat) (m : Msg) (rest : Bytes) (hk : mx ≤ k)
+    (hsize : (encode (nestMsg k m)).length < 4294967296) :
+    decode mx (encode (nestMsg k m) ++ rest) = none := by
+  unfold decode
+  rw [show encode (nestMsg k m) = encMsg (nestMsg k m) from rfl,
+    c2_nest_refused mx m k _ 1 rest (by omega) hsize]
+
+/-- Non-vacuity: with the limit at 256, the empty Message wrapped 256 times is such an input (12 + 256·30 bytes). -/
+example : (256 : Nat) ≤ 256 ∧ ∀ k, (encode (nestMsg k (.mk 0 []))).length = 12 + 30 * k := by
+  refine ⟨Nat.le_refl _, ?_⟩
+  intro k
+  induction k with
+  | zero => simp [nestMsg, encode, encMsg, encFields, countFlat]
+  | succ k ih =>
+    simp only [encode] at ih ⊢
+    rw [c2_encMsg_nest_succ]
+    simp [ih]; omega
+
+/-! ## cost -/
+
+/-- What one call of `Message::Unflatten` (entered with nest count `lvl`, on a view of `b.length` bytes) reserves,
+    copies and iterates — on successful AND failed parses, for every nesting limit, fuel, level and byte string, with
+    numeral constants that do not depend on the nesting limit:
+
+    * field-table slots requested (first allocation of each frame's table + every doubling): `table ≤ 3 · length`;
+    * every other reservation (array slots, pooled objects, buffer bytes): `reserve ≤ 2 · length`;
+    * bytes copied out of the input: `copied ≤ length`;
+    * loop iterations and recursive calls: `steps ≤ length + 1`;
+    * no nested reader is ever given a budget beyond the bytes present: `window ≤ length`.
+
+    Constants: A = 3 (table) + 2 (reserve) = 5, A0 = 0, B = 1, C = 1, C0 = 1. -/
+theorem cost_linear (mx fuel lvl : Nat) (b : Bytes) :
+    (decMsgT entryPresizeCap mx fuel lvl b).2.table ≤ 3 * b.length ∧
+    (decMsgT entryPresizeCap mx fuel lvl b).2.reserve ≤ 2 * b.length ∧
+    (decMsgT entryPresizeCap mx fuel lvl b).2.copied ≤ b.length ∧
+    (decMsgT entryPresizeCap mx fuel lvl b).2.steps ≤ b.length + 1 ∧
+    (decMsgT entryPresizeCap mx fuel lvl b).2.window ≤ b.length := by
+  have ht := (c2_tabAt entryPresizeCap presize_bounded mx fuel).msg lvl b
+  have hl := (c2_linAt entryPresizeCap mx (max lvl (mx + 1)) (by omega) fuel).msg lvl b (by omega)
+  have hp := (c2_posAt mx fuel).msg lvl b
+  rw [← erase_tally entryPresizeCap] at hp
+  generalize decMsgT entryPresizeCap mx fuel lvl b = r at ht hl hp ⊢
+  obtain ⟨r1, r2⟩ := r
+  cases r1 with
+  | none => simp only [TabR, LinR, LinF] at ht hl ⊢; omega
+  | some x =>
+    have := hp x.1 x.2 rfl
+    simp only [TabR, LinR, LinS] at ht hl ⊢; omega
+
+/-- The same for the entry point `Message::UnflattenFromBytes`: all storage units reserved together are at most 5 per
+    input byte, whatever the nesting limit. -/
+theorem cost_linear_decode (mx : Nat) (b : Bytes) :
+    (decodeT entryPresizeCap mx b).2.table ≤ 3 * b.length ∧
+    (decodeT entryPresizeCap mx b).2.reserve ≤ 2 * b.length ∧
+    (decodeT entryPresizeCap mx b).2.copied ≤ b.length ∧
+    (decodeT entryPresizeCap mx b).2.steps ≤ b.length + 1 ∧
+    (decodeT entryPresizeCap mx b).2.window ≤ b.length ∧
+    (decodeT entryPresizeCap mx b).2.table + (decodeT entryPresizeCap mx b).2.reserve ≤ 5 * b.length := by
+  have h := cost_linear mx (b.length + 2) 1 b
+  simp only [decodeT]
+  omega
+
+/-- The table bound for ANY cap up to 36 (the model function with the cap as an explicit parameter): what the proof
+    needs from the source is only that the presize is bounded, not the particular number. -/
+theorem table_linear_of_cap (c : Nat) (hc : c ≤ 36) (mx fuel lvl : Nat) (b : Bytes) :
+    (decMsgT (some c) mx fuel lvl b).2.table ≤ 3 * b.length := by
+  have ht := (c2_tabAt (some c) (c2_presize_some c hc) mx fuel).msg lvl b
+  have hp := (c2_posAt mx fuel).msg lvl b
+  rw [← erase_tally (some c)] at hp
+  generalize decMsgT (some c) mx fuel lvl b = r at ht hp ⊢
+  obtain ⟨r1, r2⟩ := r
+  cases r1 with
+  | none => simp only [TabR] at ht ⊢; omega
+  | some x => simp only [TabR] at ht ⊢; omega
+
+/-- Non-vacuity: the cap in the source is such a number. -/
+example : ∃ c, entryPresizeCap = some c ∧ c ≤ 36 := ⟨32, rfl, by decide⟩
+
+/-- The linear components hold for every presize cap, `none` included (they do not involve the field table). -/
+theorem cost_linear_any_cap (cap : Option Nat) (mx fuel lvl : Nat) (b : Bytes) :
+    (decMsgT cap mx fuel lvl b).2.reserve ≤ 2 * b.length ∧
+    (decMsgT cap mx fuel lvl b).2.copied ≤ b.length ∧
+    (decMsgT cap mx fuel lvl b).2.steps ≤ b.length + 1 ∧
+    (decMsgT cap mx fuel lvl b).2.window ≤ b.length := by
+  have hl := (c2_linAt cap mx (max lvl (mx + 1)) (by omega) fuel).msg lvl b (by omega)
+  have hp := (c2_posAt mx fuel).msg lvl b
+  rw [← erase_tally cap] at hp
+  generalize decMsgT cap mx fuel lvl b = r at hl hp ⊢
+  obtain ⟨r1, r2⟩ := r
+  cases r1 with
+  | none => simp only [LinR, LinF] at hl ⊢; omega
+  | some x =>
+    have := hp x.1 x.2 rfl
+    simp only [LinR, LinS] at hl ⊢; omega
+
+/-- On an ACCEPTED input the non-table reservations are even covered one-for-one by consumed bytes. -/
+theorem cost_accepted (cap : Option Nat) (mx fuel lvl : Nat) (b : Bytes) (m : Msg) (rest : Bytes)
+    (h : (decMsgT cap mx fuel lvl b).1 = some (m, rest)) :
+    (decMsgT cap mx fuel lvl b).2.reserve + rest.length ≤ b.length ∧
+    (decMsgT cap mx fuel lvl b).2.copied + rest.length ≤ b.length ∧
+    (decMsgT cap mx fuel lvl b).2.steps + rest.length ≤ b.length ∧
+    (decMsgT cap mx fuel lvl b).2.depth ≤ mx := by
+  by_cases hlvl : lvl ≤ mx + 1
+  · have hl := (c2_linAt cap mx (mx + 1) (by omega) fuel).msg lvl b hlvl
+    rw [h] at hl
+    simp only [LinR, LinS] at hl; omega
+  · -- entered above the limit: the call fails at once
+    exfalso
+    cases fuel with
+    | zero => simp [decMsgT] at h
+    | succ fuel =>
+      rw [decMsgT] at h
+      simp only [nestGuard, Bool.true_and, decide_eq_true_eq] at h
+      rw [if_pos (by omega)] at h
+      cases h
+
+/-- Non-vacuity of `cost_accepted`: a header-only Message is accepted. -/
+example : ∃ m rest, (decMsgT none 256 2 1 [0x30, 0x30, 0x4D, 0x50, 0, 0, 0, 0, 0, 0, 0, 0, 7]).1 = some (m, rest) :=
+  ⟨.mk 0 [], [7], by
+  simp [decodeT, decMsgT, decMsg, decFieldsT, decFields, decPayloadT, rd32, rdN, takeN, leVal, le32, leN, cstr, lookupField, wireItemSize,
+    nestGuard, entryCountGuard, oldestProtocolVersion, protocolVersion, Tally.add_def,
+    tcMessage, tcBool, tcDouble, tcFloat, tcInt64, tcInt32, tcInt16, tcInt8, tcPoint, tcRect, tcPointer, tcTag]⟩
+
+/-- Why the cap matters — the UNCAPPED model (`cap = none`: the table presized for the bare declared count, the code
+    before fix fdd2b0b): every nesting level may claim a twelfth of the SAME bytes.  With the limit at 2, this 78-byte
+    input (a Message declaring 5 entries whose first field is a sub-Message declaring 3 entries, which stores one empty
+    field and then meets zero bytes) requests 5 + 3 = 8 table slots, more than one twelfth of its length; nested `d`
+    deep the same construction requests about `d·N/12`, so for the uncapped model no bound `table ≤ A·N` with a
+    numeral `A` independent of `mx` exists (measured on the real parser before the fix: depth 250, N = 107 482 →
+    137 797 064 bytes requested). -/
+theorem uncapped_table_exceeds_view_twelfth :
+    ∃ b : Bytes, ¬ (12 * (decodeT none 2 b).2.table ≤ b.length) :=
+  ⟨[0x30, 0x30, 0x4D, 0x50, 0, 0, 0, 0, 5, 0, 0, 0] ++ le32 2 ++ [0x61, 0] ++ le32 tcMessage ++ le32 52 ++ le32 48 ++
+    ([0x30, 0x30, 0x4D, 0x50, 0, 0, 0, 0, 3, 0, 0, 0] ++ le32 2 ++ [0x62, 0] ++ le32 tcMessage ++ le32 0 ++
+     [0, 0, 0, 0, 0, 0, 0, 0, 0, 0, 0, 0, 0, 0, 0, 0, 0, 0, 0, 0, 0, 0]), by
+  simp [decodeT, decMsgT, decMsg, decFieldsT, decFields, decPayloadT, decMsgItemsT, presize, putCharge, upsertField, rd32, rdN, takeN, leVal, le32, leN, cstr,
+    lookupField, wireItemSize, nestGuard, entryCountGuard, oldestProtocolVersion, protocolVersion, Tally.add_def, htDefaultCapacity,
+    tcMessage, tcBool, tcDouble, tcFloat, tcInt64, tcInt32, tcInt16, tcInt8, tcPoint, tcRect, tcPointer, tcTag]⟩
+
+/-! ## declared counts and lengths are harmless -/
+
+/-- A header declaring `n` entries with fewer than `12·n` bytes behind it: the parse fails and NOTHING was reserved or
+    copied — whatever `n` is. -/
+theorem declared_entry_count_harmless (cap : Option Nat) (mx fuel lvl ver what n : Nat) (rest : Bytes)
+    (hv : ver < 4294967296) (hw : what < 4294967296) (hn : n < 4294967296) (h : rest.length < 12 * n) :
+    (decMsgT cap mx fuel lvl (le32 ver ++ (le32 what ++ (le32 n ++ rest)))).1 = none ∧
+    (decMsgT cap mx fuel lvl (le32 ver ++ (le32 what ++ (le32 n ++ rest)))).2.table = 0 ∧
+    (decMsgT cap mx fuel lvl (le32 ver ++ (le32 what ++ (le32 n ++ rest)))).2.reserve = 0 ∧
+    (decMsgT cap mx fuel lvl (le32 ver ++ (le32 what ++ (le32 n ++ rest)))).2.copied = 0 ∧
+    (decMsgT cap mx fuel lvl (le32 ver ++ (le32 what ++ (le32 n ++ rest)))).2.steps ≤ 1 := by
+  cases fuel with
+  | zero => simp [decMsgT]
+  | succ fuel =>
+    rw [decMsgT]
+    simp only [nestGuard, entryCountGuard, Bool.true_and, decide_eq_true_eq]
+    by_cases hl : mx < lvl
+    · rw [if_pos hl]; simp
+    · rw [if_neg hl]
+      simp only [rd32_le32 _ _ hv, rd32_le32 _ _ hw, rd32_le32 _ _ hn]
+      by_cases hver : ver < oldestProtocolVersion ∨ protocolVersion < ver
+      · rw [if_pos hver]; simp
+      · rw [if_neg hver]
+        have : rest.length / 12 < n := by omega
+        rw [if_pos this]; simp
+
+/-- Non-vacuity: a header declaring 4 000 000 000 entries in front of 5 bytes. -/
+example : (5 : Nat) < 12 * 4000000000 ∧ (4000000000 : Nat) < 4294967296 := by decide
+
+/-- A string field declaring `cnt` items with fewer than `4·cnt` bytes behind the count: the field fails and nothing
+    was reserved or copied — whatever `cnt` is. -/
+theorem declared_string_count_harmless (cap : Option Nat) (mx fuel lvl cnt : Nat) (q : Bytes)
+    (hc : cnt < 4294967296) (h : q.length < 4 * cnt) :
+    (decPayloadT cap mx fuel lvl tcString (le32 cnt ++ q)).1 = none ∧
+    (decPayloadT cap mx fuel lvl tcString (le32 cnt ++ q)).2.table = 0 ∧
+    (decPayloadT cap mx fuel lvl tcString (le32 cnt ++ q)).2.reserve = 0 ∧
+    (decPayloadT cap mx fuel lvl tcString (le32 cnt ++ q)).2.copied = 0 ∧
+    (decPayloadT cap mx fuel lvl tcString (le32 cnt ++ q)).2.steps ≤ 1 := by
+  unfold decPayloadT
+  have e0 : ¬ (wireItemSize tcString ≠ 0) := by decide
+  have e1 : ¬ (tcString = tcPointer ∨ tcString = tcTag) := by decide
+  have e2 : ¬ (tcString = tcMessage) := by decide
+  rw [if_neg e0, if_neg e1, if_neg e2]
+  simp only [rd32_le32 _ _ hc, if_true, strCountGuard, Bool.true_and, decide_eq_true_eq]
+  by_cases h5 : cnt ≠ 1 ∧ q.length / 4 < cnt
+  · rw [if_pos h5]; simp
+  · rw [if_neg h5]
+    have h1 : cnt = 1 := by omega
+    subst h1
+    have : rd32 q = none := c2_rd32_short (by omega)
+    simp [decStrItemsT, this, Tally.add_def]
+
+/-- Non-vacuity: 20 000 000 strings declared in front of 6 bytes (the input of the fixed defect: 350 MB reserved). -/
+example : (6 : Nat) < 4 * 20000000 ∧ (20000000 : Nat) < 4294967296 := by decide
+
+/-- A ByteBuffer item declaring `len` bytes with fewer than `len` bytes behind the length word: the loop fails at that
+    item and no buffer of the declared size was obtained or filled. -/
+theorem declared_raw_length_harmless (k len : Nat) (q : Bytes) (hl : len < 4294967296) (h : q.length < len) :
+    (decRawItemsT (k + 1) (le32 len ++ q)).1 = none ∧
+    (decRawItemsT (k + 1) (le32 len ++ q)).2.reserve = 0 ∧
+    (decRawItemsT (k + 1) (le32 len ++ q)).2.copied = 0 ∧
+    (decRawItemsT (k + 1) (le32 len ++ q)).2.steps = 1 := by
+  simp only [decRawItemsT, rd32_le32 _ _ hl, rawLenGuard, Bool.true_and, decide_eq_true_eq]
+  rw [if_pos h]; simp
+
+/-- A sub-Message item declaring `len` bytes with fewer than `len` bytes behind the length word: the loop fails at that
+    item; no Message was obtained and no reader of the declared size was made. -/
+theorem declared_submsg_length_harmless (cap : Option Nat) (mx fuel lvl len : Nat) (q : Bytes) (hl : len < 4294967296) (h : q.length < len) :
+    (decMsgItemsT cap mx (fuel + 1) lvl (le32 len ++ q)).1 = none ∧
+    (decMsgItemsT cap mx (fuel + 1) lvl (le32 len ++ q)).2.reserve = 0 ∧
+    (decMsgItemsT cap mx (fuel + 1) lvl (le32 len ++ q)).2.window = 0 ∧
+    (decMsgItemsT cap mx (fuel + 1) lvl (le32 len ++ q)).2.steps = 1 := by
+  obtain ⟨a, t, hat⟩ : ∃ a t, le32 len ++ q = a :: t := by simp [le32, leN]
+  rw [hat, decMsgItemsT, ← hat]
+  simp only [rd32_le32 _ _ hl, subMsgLenGuard, Bool.true_and, decide_eq_true_eq]
+  rw [if_pos h]; simp
+
+/-- Non-vacuity of the last two: 4 000 000 000 bytes declared in front of 3. -/
+example : (3 : Nat) < 4000000000 ∧ (4000000000 : Nat) < 4294967296 := by decide
+
+/-! ## the accepted object is no bigger than the input -/
+
+/-- Whatever a successful `Message::Unflatten` returns re-flattens into no more bytes than it consumed
+    (`String::Unflatten` stops at the first NUL and bool bytes are normalised — both only shrink or keep; a repeated
+    field name REPLACES the earlier entry; a length word is 4 bytes whatever it says). -/
+theorem reader_result_size (mx fuel lvl : Nat) (b : Bytes) (m : Msg) (rest : Bytes)
+    (h : decMsg mx fuel lvl b = some (m, rest)) : (encMsg m).length + rest.length ≤ b.length :=
+  (c2_sizeAt mx fuel).msg lvl b m rest h
+
+/-- The accepted object is no bigger than the input: K = 1, K0 = 0. -/
+theorem decode_result_size (mx : Nat) (b : Bytes) (m : Msg) (h : decode mx b = some m) :
+    (encode m).length ≤ b.length := by
+  unfold decode at h
+  cases hd : decMsg mx (b.length + 2) 1 b with
+  | none => rw [hd] at h; cases h
+  | some v =>
+    obtain ⟨m', r⟩ := v
+    rw [hd] at h
+    cases h
+    have := (c2_sizeAt mx _).msg _ _ _ _ hd
+    simp only [encode]; omega
+
+/-- Non-vacuity: a header-only Message followed by a stray byte is accepted (and re-flattens into 12 ≤ 13 bytes). -/
+example : ∃ m, decode 256 [0x30, 0x30, 0x4D, 0x50, 0, 0, 0, 0, 0, 0, 0, 0, 7] = some m :=
+  ⟨.mk 0 [], by
+  simp [decode, decMsg, decFields, rd32, rdN, takeN, leVal, oldestProtocolVersion, protocolVersion]⟩
 
 end Muscle.Props.C02
